@@ -37,7 +37,7 @@ try:
     else:
         res['files'] = subprocess.run(['git', '-C', wt, 'diff', '--stat'], capture_output=True, text=True).stdout.strip().splitlines()[-1:]
         res['demo_mutant'] = demo()
-        checks = (a.checks.split(',') if a.checks else [pid])
+        checks = ([] if a.checks == 'none' else a.checks.split(',') if a.checks else [pid])
         res['checks'] = {}
         for c in checks:
             out = '/tmp/sv/out_' + tag
